@@ -34,6 +34,9 @@ def kindOrder : List String :=
    "terminal-dropped", "orphan-object", "route-end-mismatch", "dangling-junction",
    -- kinds that the unmodified library produces on generated scenes (finding candidates, see report):
    "attached-to-deleted-junction", "crash-after-attached-to-deleted-junction", "unattached-end", "disconnected",
+   "dangling-junction[new-split-junction]", "route-end-mismatch[nudged-off-junction]",
+   "route-end-mismatch[along-terminal-shape-edge]", "route-end-mismatch[terminal-end-shifted-with-junction]",
+   "route-end-mismatch[rerouted-junction-link-misses-final-piece]",
    "rerouted-route-misses-terminal", "empty-route", "leak"]
 
 def kindRank (k : String) : Nat := (kindOrder.findIdx? (· == k)).getD 0
@@ -105,6 +108,7 @@ def checkCase (c : Case) : CaseResult := Id.run do
   let nsteps := (c.get "done").size
   let mut nontrivial := false
   let mut rerouted : List String := []     -- connectors created by HyperedgeRerouter so far
+  let mut splitLeft : List String := []    -- junctions the improver created by a split and left with only the bridging connector
   let mut s := 1
   while s ≤ nsteps do
     -- ---------------------------------------------------------------- parse the step
@@ -118,9 +122,15 @@ def checkCase (c : Case) : CaseResult := Id.run do
     let mut newC : List Nat := []
     let mut delJ : List Nat := []
     let mut delC : List Nat := []
+    let mut impNewJ : List String := []      -- created by the improver in this transaction
+    let mut reroutedNow : List String := []  -- connectors created by full rerouting in this transaction
+    let mut impNewC : List String := []
     for l in stepLines c "nd" s do
       if (l[1]?.getD "").startsWith "rr" && l[2]?.getD "" == "newc" then
         rerouted := rerouted ++ (l.extract 3 l.size).toList
+        reroutedNow := reroutedNow ++ (l.extract 3 l.size).toList
+      if l[1]?.getD "" == "imp" && l[2]?.getD "" == "newj" then impNewJ := impNewJ ++ (l.extract 3 l.size).toList
+      if l[1]?.getD "" == "imp" && l[2]?.getD "" == "newc" then impNewC := impNewC ++ (l.extract 3 l.size).toList
       let ids := ((l.extract 3 l.size).map (idNum s)).toList
       match l[2]?.getD "" with
       | "newj" => newJ := newJ ++ ids
@@ -213,7 +223,17 @@ def checkCase (c : Case) : CaseResult := Id.run do
           let badLeaves := verts.filter (fun v => deg es v == 1 && !tIdx.contains v && isJ (name v))
           if !badLeaves.isEmpty then
             explained := true
-            fails := fails.push ⟨"dangling-junction", s!"step {s} hyperedge {h}: junction(s) {badLeaves.map name} have a single connector (a leaf that is not a terminal)"⟩
+            -- sub-fingerprint: the improver split a junction in THIS transaction, and the new junction
+            -- carries nothing but the new bridging connector (the old connectors were not re-attached)
+            let connsAt (v : Nat) : List String :=
+              ((edges.zip edgeConn).filter (fun (e, _) => e.1 == v || e.2 == v)).map (·.2)
+            let fresh (v : Nat) : Bool := impNewJ.contains ((name v).drop 1).toString &&
+                                          (connsAt v).all (fun k => impNewC.contains k)
+            for v in badLeaves do
+              if fresh v then splitLeft := splitLeft ++ [name v]
+            let split := badLeaves.all (fun v => fresh v || splitLeft.contains (name v))
+            let kind := if split then "dangling-junction[new-split-junction]" else "dangling-junction"
+            fails := fails.push ⟨kind, s!"step {s} hyperedge {h}: junction(s) {badLeaves.map name} have a single connector (a leaf that is not a terminal){if split then "; each was created by the improver's junction split (in this or an earlier transaction) and has carried only the new bridging connector since" else ""}"⟩
           let otherT := verts.filter (fun v => isT (name v) && !tIdx.contains v)
           if !otherT.isEmpty then
             explained := true
@@ -260,6 +280,18 @@ def checkCase (c : Case) : CaseResult := Id.run do
             | none => pure ()
             i := i + 2
       return r
+    let routes := stepLines c "route" s
+    let routePts (id : String) : List (Rat × Rat) := Id.run do
+      let mut r : List (Rat × Rat) := []
+      for l in routes do
+        if l[1]?.getD "" == id then
+          let mut i := 2
+          while i + 1 < l.size do
+            match pt? l[i]! l[i+1]! with
+            | some p => r := r ++ [p]
+            | none => pure ()
+            i := i + 2
+      return r
     let boxes := stepLines c "tbox" s
     let inBox (t : String) (p : Rat × Rat) : Bool :=
       boxes.any (fun l => l[1]?.getD "" == t &&
@@ -287,7 +319,9 @@ def checkCase (c : Case) : CaseResult := Id.run do
         let fwd := max (endLevel k.e1 a) (endLevel k.e2 b)
         let rev := max (endLevel k.e1 b) (endLevel k.e2 a)
         let lvl := min fwd rev
-        if fwd ≤ rev then stats := bumpStats stats "route.forward" 1
+        -- orientation: the better one; on a tie of the worse end, the one with the better other end
+        let fwdBetter := fwd < rev || (fwd == rev && endLevel k.e1 a + endLevel k.e2 b ≤ endLevel k.e1 b + endLevel k.e2 a)
+        if fwdBetter then stats := bumpStats stats "route.forward" 1
         else stats := bumpStats stats "route.reversed" 1
         if lvl == 0 then stats := bumpStats stats "route.ends-exact" 1
         else if lvl == 1 then stats := bumpStats stats "route.ends-within-slack" 1
@@ -295,9 +329,75 @@ def checkCase (c : Case) : CaseResult := Id.run do
           let jinfo := juncs.filter (fun j => "J" ++ j.id == k.e1 || "J" ++ j.id == k.e2)
           let js := jinfo.map (fun j => s!"J{j.id}@({ratToString j.rcm.1},{ratToString j.rcm.2}) pos=({ratToString j.pos.1},{ratToString j.pos.2})")
           -- which end is off?  (in the better of the two orientations)
-          let (pa, pb) := if fwd ≤ rev then (a, b) else (b, a)
+          let (pa, pb) := if fwdBetter then (a, b) else (b, a)
           let junctionEndOff := (isJ k.e1 && endLevel k.e1 pa == 2) || (isJ k.e2 && endLevel k.e2 pb == 2)
-          let kind := if !junctionEndOff && rerouted.contains k.id then "rerouted-route-misses-terminal" else "route-end-mismatch"
+          -- Sub-fingerprints of the route-end defects the unmodified library shows.  Common part: the
+          -- route's end segment at the off end is axis-parallel and the attached object's position R
+          -- lies on the line through the route end E perpendicular to that segment (a final
+          -- perpendicular piece E–R is missing or the end segment was shifted sideways).  Then one of
+          --  [nudged-off-junction]                 junction end, |E−R| ≤ 2·junctionSlack (stacked nudging steps)
+          --  [along-terminal-shape-edge]           the missing piece E–R runs on (within 1 of) the line of a
+          --                                        side of the box of the terminal shape this connector attaches to
+          --  [terminal-end-shifted-with-junction]  terminal end, and E−R equals the shift position() →
+          --                                        recommendedPosition() of the connector's junction in that coordinate
+          -- Anything else (short/overshooting along the route's own direction, off in both coordinates,
+          -- a perpendicular gap that meets none of the three) keeps the plain kind.
+          let pts := routePts k.id
+          let pts := if fwdBetter then pts else pts.reverse
+          let expected (e : String) : List (Rat × Rat) :=
+            if isJ e then (match juncs.find? (fun j => "J" ++ j.id == e) with
+                           | some j => [j.rcm, j.pos]
+                           | none => [])
+            else pinPts e
+          let termEnds := [k.e1, k.e2].filter isT
+          let juncShift : List (Rat × Rat) :=
+            (juncs.filter (fun j => "J" ++ j.id == k.e1 || "J" ++ j.id == k.e2)).map (fun j => (j.rcm.1 - j.pos.1, j.rcm.2 - j.pos.2))
+          let onEdgeX (x : Rat) : Bool := boxes.any (fun l => termEnds.contains (l[1]?.getD "") &&
+            (match nums? (l.extract 2 6) with
+             | some v => absRat (x - v[0]!) ≤ 1 || absRat (x - v[2]!) ≤ 1
+             | none => false))
+          let onEdgeY (y : Rat) : Bool := boxes.any (fun l => termEnds.contains (l[1]?.getD "") &&
+            (match nums? (l.extract 2 6) with
+             | some v => absRat (y - v[1]!) ≤ 1 || absRat (y - v[3]!) ≤ 1
+             | none => false))
+          --  [rerouted-junction-link-misses-final-piece]  junction-to-junction connector created by full
+          --                                        rerouting in this very transaction (and then edited by the improver)
+          let jjNow := isJ k.e1 && isJ k.e2 && reroutedNow.contains k.id
+          -- p = route end, q = its neighbour on the route; result = name of the sub-fingerprint met
+          let sub (e : String) (p q : Rat × Rat) : Option String :=
+            if p.1 == q.1 && p.2 != q.2 then          -- vertical end segment: R must share y with E
+              (expected e).findSome? (fun r =>
+                if r.2 == p.2 && r.1 != p.1 then
+                  if isJ e && absRat (r.1 - p.1) ≤ 2 * junctionSlack then some "nudged-off-junction"
+                  else if jjNow then some "rerouted-junction-link-misses-final-piece"
+                  else if onEdgeY p.2 then some "along-terminal-shape-edge"
+                  else if isT e && juncShift.any (fun d => d.1 == p.1 - r.1 && d.1 != 0) then some "terminal-end-shifted-with-junction"
+                  else none
+                else none)
+            else if p.2 == q.2 && p.1 != q.1 then     -- horizontal end segment: R must share x with E
+              (expected e).findSome? (fun r =>
+                if r.1 == p.1 && r.2 != p.2 then
+                  if isJ e && absRat (r.2 - p.2) ≤ 2 * junctionSlack then some "nudged-off-junction"
+                  else if jjNow then some "rerouted-junction-link-misses-final-piece"
+                  else if onEdgeX p.1 then some "along-terminal-shape-edge"
+                  else if isT e && juncShift.any (fun d => d.2 == p.2 - r.2 && d.2 != 0) then some "terminal-end-shifted-with-junction"
+                  else none
+                else none)
+            else none
+          let sub1 : Option String := if endLevel k.e1 pa != 2 then some "" else
+            (match pts with
+             | p :: q :: _ => sub k.e1 p q
+             | _ => none) <|> (if isT k.e1 && rerouted.contains k.id then some "" else none)
+          let sub2 : Option String := if endLevel k.e2 pb != 2 then some "" else
+            (match pts.reverse with
+             | p :: q :: _ => sub k.e2 p q
+             | _ => none) <|> (if isT k.e2 && rerouted.contains k.id then some "" else none)
+          let kind := if !junctionEndOff && rerouted.contains k.id then "rerouted-route-misses-terminal"
+                      else match sub1, sub2 with
+                        | some a1, some a2 =>
+                          let nm := if a1 != "" then a1 else a2
+                          if nm == "" then "route-end-mismatch" else s!"route-end-mismatch[{nm}]"
+                        | _, _ => "route-end-mismatch"
           fails := fails.push ⟨kind, s!"step {s}: connector {k.id} ({k.e1} -> {k.e2}) route runs ({ratToString a.1},{ratToString a.2}) .. ({ratToString b.1},{ratToString b.2}); attached: {js} pins {(pinPts k.e1 ++ pinPts k.e2).map (fun p => s!"({ratToString p.1},{ratToString p.2})")}"⟩
       | _, _ =>
         fails := fails.push ⟨"empty-route", s!"step {s}: connector {k.id} ({k.e1} -> {k.e2}) has a display route of {k.n} points"⟩
@@ -309,7 +409,8 @@ def checkCase (c : Case) : CaseResult := Id.run do
   match c.get1 "crash" with
   | some l =>
     let k := if fails.any (fun f => f.kind == "attached-to-deleted-junction") then "crash-after-attached-to-deleted-junction" else "crash"
-    fails := fails.push ⟨k, s!"the library aborted inside transaction {nsteps + 1} (sanitizer report / failed assertion, harness child exit status {l[0]?.getD "?"}); replay the case to see it (C15 matter)"⟩
+    let text := " ".intercalate (l.extract 1 l.size).toList
+    fails := fails.push ⟨k, s!"{text} — the library aborted inside transaction {nsteps + 1} (harness child exit status {l[0]?.getD "?"}); replay the case for the full report (C15 matter)"⟩
   | none =>
     if nsteps == 0 then
       fails := fails.push ⟨"parse", "no completed transaction in the case"⟩
